@@ -40,7 +40,7 @@ def main(argv):
                       {'correspondence': prop, 'traceback': tb}, no_input=True)
         proof = locals().get('proof')
     rc = rep.finish(proof, getattr(mod, 'ASSUMPTIONS', ()))
-    os.chdir('/verif')
+    os.chdir(str(common.VERIF))
     import shutil
     shutil.rmtree(common.WORK / prop, ignore_errors=True)
     print(f'{prop} {tier}: evaluations={rep.coverage.get("evaluations")} violations={rep.violations} '
